@@ -208,7 +208,7 @@ func (f *follower) heal(head common.Hash, want map[string]bool) {
 				f.deliver(netMsgB{ms[i], ctx}, "heal-resend")
 			}
 		}
-		for t := 0; t < len(ms)+2 && !f.dead; t++ {
+		for t := 0; t < len(ms)+16 && !f.dead; t++ { // a dominant chain re-asks its subordinate for pending ETXs only after 10 failed retries
 			if perr := guarded(func() error { fireAppendQueues(f.b, 1); return nil }); perr != nil {
 				f.dead = true
 				f.fail("follower-panic", "on=queue-tick", fmt.Sprintf("node B panicked in its append-queue retry: %v", perr))
